@@ -522,6 +522,10 @@ inductive BufExpr
   | cloneCopy (e : BufExpr) (side : Bool)
   | withTask (e : BufExpr) (r : Option Nat)
   | withErrorHandler (e : BufExpr)
+  /-- the replication pattern (`localBlobReplicator.ReplicateSingle`, the refresh of `flatBlobAccess.Get`):
+  `b1, b2 := e.CloneStream(); b1.WithTask(func() error { consume b2; return r })` - the task itself owns
+  the other handle, so it can complete only while this handle is being read or after it was closed -/
+  | replicate (e : BufExpr) (side : Bool) (sib : Sib) (r : Option Nat)
 deriving Repr
 
 structure Env where
@@ -607,6 +611,10 @@ def build (env : Env) : BufExpr → Nat → Option (Buf × Nat)
     match build env e n with
     | some (b, n') => some (withErrorHandlerB b, n')
     | none => none
+  | .replicate e _ sib r, n =>
+    match build env e n with
+    | some (b, n') => some (withTaskB n' r (cloneStreamB env sib b), n' + 1)
+    | none => none
 
 /-- the consumption methods of the `Buffer` interface (the cloning and decorating ones are `BufExpr` nodes) -/
 inductive Method
@@ -656,6 +664,11 @@ def leaks (env : Env) : BufExpr → Bool
       match build env e 0 with
       | some (.readerAt _, _) => true
       | _ => false)
+  | .replicate e _ _ r =>
+    leaks env e || (!env.ratRepaired && r.isSome &&
+      match build env e 0 with
+      | some (.readerAt _, _) => true
+      | _ => false)
 
 def baseKind : BufExpr → Kind
   | .base k => k
@@ -663,6 +676,7 @@ def baseKind : BufExpr → Kind
   | .cloneCopy e _ => baseKind e
   | .withTask e _ => baseKind e
   | .withErrorHandler e => baseKind e
+  | .replicate e _ _ _ => baseKind e
 
 /-- How often the source (`ReadAtCloser`, `io.ReadCloser`, `ChunkReader`) has been
 closed once the method has returned and the goroutines owning the other
@@ -671,5 +685,33 @@ def closes (env : Env) (e : BufExpr) : Option Nat :=
   match baseKind e with
   | .err _ | .bytes => none
   | _ => some (if leaks env e then 0 else 1)
+
+/-! ### the order of releasing and waiting
+
+What a consuming call does to the decorators, in order: the task decorator
+first lets the buffer / reader underneath finish (`b.base.X()` has returned,
+`r.r.Close()` has been called: `closed t`) and only then executes
+`<-task.completion` (`wait t`).  A task that owns the other handle of a stream
+clone (`replicate`) completes only once this handle is closed or drained, so
+waiting first would never end. -/
+
+inductive Ev
+  | closed (t : Nat)
+  | wait (t : Nat)
+deriving DecidableEq, Repr
+
+/-- events of any consuming method, of `Close` of a chunk reader / reader, and of the `Close`
+that the decorated chunk reader performs itself at the end of the stream -/
+def events : Buf → List Ev
+  | .task base _ t _ => events base ++ [.closed t, .wait t]
+  | .eh base _ => events base
+  | _ => []
+
+/-- The first task the call would wait for for ever: a task `dep` says completes only after the
+reader under its decorator was closed, waited for before that happened. -/
+def blockedAt (dep : Nat → Bool) : List Ev → List Nat → Option Nat
+  | [], _ => none
+  | .closed t :: rest, seen => blockedAt dep rest (t :: seen)
+  | .wait t :: rest, seen => if dep t && !seen.contains t then some t else blockedAt dep rest seen
 
 end BB.Mux
